@@ -1,6 +1,8 @@
-#!/usr/bin/env python3
+#!/venv/bin/python
 """Regenerates MANIFEST.json from the property modules present in harness/ (run by hand after adding a property)."""
 import importlib, json, sys
+if not sys.executable.startswith("/venv"):  # harness modules import numpy/qcelemental: must run under /venv
+    import os; os.execv("/venv/bin/python", ["/venv/bin/python"] + sys.argv)
 from pathlib import Path
 V = Path(__file__).resolve().parent.parent
 sys.path.insert(0, str(V / "harness"))
